@@ -447,6 +447,14 @@ var (
 		{motifEnq, motifDeqLong, {K: "ack", L: lref(-1)}, motifEnq2, {K: "enq", Items: []QItem{{ID: "m0", Route: "/a", Target: "pull", Payload: []byte{1}}}}, motifDeqLong},
 		{{K: "enq", Items: []QItem{{ID: "m0", Route: "/a", Target: "pull", RecvAgoMs: 1000}}}, {K: "stats"}, {K: "enq", Items: []QItem{{ID: "m0", Route: "/a", Target: "pull", Payload: []byte{2}}}}, motifDeqLong},
 	}
+	// operator mutations aimed at states they are not defined for (by id and by filter, the filter
+	// naming the wrong state explicitly): nothing may move
+	motifsWrongSource = [][]QOp{
+		{motifEnq, motifEnq2, motifDeqLong, {K: "requeuef", State: "leased", N: 10}, {K: "resumef", State: "leased", N: 10}, {K: "requeue", IDs: []string{"m0", "m1"}}, {K: "resume", IDs: []string{"m0"}}, {K: "ackb", Ls: []LRef{{K: -1}, {K: -2}}}},
+		{motifEnq, motifDeqLong, {K: "dead", L: lref(-1), Reason: "x"}, {K: "resumef", State: "dead", N: 10}, {K: "resume", IDs: []string{"m0"}}, {K: "cancelf", State: "canceled", N: 10}, {K: "rqdead", IDs: []string{"m0"}}, motifDeqLong},
+		{motifEnq, motifEnq2, {K: "requeuef", State: "queued", N: 10}, {K: "resumef", State: "queued", N: 10}, {K: "cancel", IDs: []string{"m1"}}, {K: "rqdead", IDs: []string{"m1"}}, {K: "requeuef", State: "canceled", N: 10}, motifDeqLong},
+		{motifEnq, motifDeqLong, {K: "ack", L: lref(-1)}, {K: "requeuef", State: "delivered", N: 10}, {K: "cancelf", State: "delivered", N: 10}, {K: "resumef", State: "delivered", N: 10}, {K: "requeue", IDs: []string{"m0"}}, motifDeqLong},
+	}
 	// delayed nack, future next_run_at, mixed readiness
 	motifsReady = [][]QOp{
 		{motifEnq, motifEnq2, motifDeqLong, {K: "nack", L: lref(-1), DurMs: 20}, {K: "nack", L: lref(-2), DurMs: 0}, {K: "deq", Route: "/a", N: 1}, {K: "adv", Ms: 10}, {K: "deq", Route: "/a", N: 5}, {K: "adv", Ms: 10}, {K: "deq", Route: "/a", N: 5}},
@@ -468,7 +476,7 @@ func profileC02() qProfile {
 	return qProfile{name: "C02", backends: []string{"memory", "sqlite"}, depths: []int{0, 0, 1, 2, 3, 5},
 		drops: []string{"reject", "drop_oldest"}, retention: true, pressure: true, maxOps: 40,
 		weights: baseWeights(), padSingle: true, explicitTS: 15, blankIDs: true, deliveredOK: true,
-		motifs: append(append([][]QOp(nil), motifsReuseID...), motifsStale...)}
+		motifs: append(append(append([][]QOp(nil), motifsReuseID...), motifsStale...), motifsWrongSource...)}
 }
 
 func profileC03() qProfile {
